@@ -90,6 +90,7 @@ theorem tot_isEmpty {n : Nat} (ih : TotAll n) : ∀ S hp l d K, Cons S hp → VD
     rw [LL.isEmpty]
     · exact Spec.pure hC _ (by rw [hV.1]; rfl)
     · exact fun h => absurd h (Nat.succ_ne_zero _)
+  | nilIface => exact hV.elim
   | adaptor hc tc =>
     obtain ⟨h1, h2, h3, _⟩ := hV
     rw [LL.isEmpty]
@@ -116,6 +117,7 @@ theorem tot_head {n : Nat} (ih : TotAll n) : ∀ S hp l d K x, Cons S hp → VDe
       rw [LL.head]
       · exact Spec.pure hC _ (by simpa [DenV.head?] using hx)
       · exact fun h => absurd h (Nat.succ_ne_zero _)
+  | nilIface => exact hV.elim
   | adaptor hc tc =>
     obtain ⟨h1, h2, h3, _⟩ := hV
     rw [LL.head]
@@ -143,6 +145,7 @@ theorem tot_tail {n : Nat} (ih : TotAll n) : ∀ S hp l d K, Cons S hp → VDen 
       rw [LL.tail]
       · exact Spec.pure hC _ (by rw [hd]; exact ⟨rfl, hk⟩)
       · exact fun h => absurd h (Nat.succ_ne_zero _)
+  | nilIface => exact hV.elim
   | adaptor hc tc =>
     obtain ⟨_, _, _, h4⟩ := hV
     obtain ⟨t1, t2, t3, t4⟩ := h4 hne
@@ -265,7 +268,7 @@ theorem tot_forceH {n : Nat} (ih : TotAll n) : ∀ S hp c, Cons S hp → c < S.n
     obtain ⟨o, S2, hp2, lg2, e2, hP2, ho⟩ := ih.runH S _ t (S.hs c) hC1 hok h2 hn hQ.runningH lg
     refine ⟨o, S2, { hp2 with hs := hp2.hs.set! c (.done o, m + 1) }, lg2, ?_, ⟨?_, hP2.ext, hP2.run.forcedH, DoneSub.forcedH hcell hP2.done⟩, ho⟩
     · rw [LL.forceH]
-      simp only [bind_apply, get_apply, hcell, modify_apply, e2, pure_apply]
+      simp only [bind_apply, get_apply, hcell, modify_apply, onPanic_ok e2, pure_apply]
     · refine hP2.cons.setH c (.done o) (m + 1) ?_
       show o = (S2.hs c).o
       rw [hP2.ext.hs c hc]; exact ho
@@ -292,7 +295,7 @@ theorem tot_forceT {n : Nat} (ih : TotAll n) : ∀ S hp c d, Cons S hp → c < S
       ih.runT S _ t d (S.ts c).need (S.ts c).K hC1 (hok d hd) h2 hn hQ.runningT hnp lg
     refine ⟨v, S2, { hp2 with ts := hp2.ts.set! c (.done v, m + 1) }, lg2, ?_, ⟨?_, hP2.ext, hP2.run.forcedT, DoneSub.forcedT hcell hP2.done⟩, hv⟩
     · rw [LL.forceT]
-      simp only [bind_apply, get_apply, hcell, modify_apply, e2, pure_apply]
+      simp only [bind_apply, get_apply, hcell, modify_apply, onPanic_ok e2, pure_apply]
     · refine hP2.cons.setT c (.done v) (m + 1) (fun _ h => by cases h) ?_
       intro d' hd'
       rw [hP2.ext.ts c hc] at hd' ⊢
@@ -322,8 +325,11 @@ theorem tot_forceL {n : Nat} (ih : TotAll n) : ∀ S hp c, Cons S hp → c < S.n
       ih.applyK S1 hp1 k x hP1.cons hpure (by omega) ((hQ1.post hC1 hP1).mono (by omega)) lg1
     have hP := hP1.trans hP2
     refine ⟨v, S2, { hp2 with ls := hp2.ls.set! c (.done v, m + 1) }, lg2, ?_, ⟨?_, hP.ext, hP.run.forcedL, ⟨hP.done.hs, hP.done.ts⟩⟩, ?_⟩
-    · rw [LL.forceL]
-      simp only [bind_apply, get_apply, hcell, modify_apply, e1, e2, pure_apply]
+    · have e12 : (do let x ← LL.head n opt; LL.applyK n k x : HM LV)
+          { hp with ls := hp.ls.set! c (.running, m + 1) } lg = (.ok v, hp2, lg2) := by
+        rw [bind_ok e1]; exact e2
+      rw [LL.forceL]
+      simp only [bind_apply, get_apply, hcell, modify_apply, onPanic_ok e12, pure_apply]
     · refine hP.cons.setL c (.done v) (m + 1) ?_
       show VDen S2 v (.fin (S2.ls c).xs) (S2.ls c).K
       rw [hP.ext.ls c hc, hxs]; exact hv.monoK hK
